@@ -217,7 +217,7 @@ func rulesC06(w *World, r *Report) {
 			}
 			if bo, ok := e.(*ssa.BinOp); ok && bo.Op == token.ADD && bo.X == ssa.Value(ph) {
 				ys := newExprCtx(w).expr(bo.Y)
-				if regexp.MustCompile(`^\(p0\[\(?i\d+( \+ 1\))?\]\.`+regexp.QuoteMeta(ptsF)+` \*:uint32 12\)$`).MatchString(ys) {
+				if regexp.MustCompile(`^\(p0\[\(?i\d+( \+ 1\))?\]\.` + regexp.QuoteMeta(ptsF) + ` \*:uint32 12\)$`).MatchString(ys) {
 					okNext = true
 				}
 			}
@@ -275,7 +275,7 @@ func rulesC06(w *World, r *Report) {
 						okInit = true
 					}
 					if bo, isBo := e.(*ssa.BinOp); isBo && bo.Op == token.ADD && bo.X == ssa.Value(ph) {
-						if regexp.MustCompile(`^\(p0\.archiveInfoList\[\(i\d+ \+ 1\)\]\.`+regexp.QuoteMeta(ptsF)+` \*:int64 12\)$`).MatchString(newExprCtx(w).expr(bo.Y)) {
+						if regexp.MustCompile(`^\(p0\.archiveInfoList\[\(i\d+ \+ 1\)\]\.` + regexp.QuoteMeta(ptsF) + ` \*:int64 12\)$`).MatchString(newExprCtx(w).expr(bo.Y)) {
 							okNext = true
 						}
 					}
@@ -330,10 +330,16 @@ func rulesC06(w *World, r *Report) {
 	if fm := need(w, r, "C06.R6", w.Lib, "floorMod"); fm != nil {
 		// floored modulo: returns x%y, or x%y+y when the remainder is non-zero and signs differ
 		var rs []string
+		set := map[string]bool{}
 		for _, rt := range returnsOf(fm) {
-			rs = append(rs, newExprCtx(w).expr(rt.Results[0]))
+			// every value a return may carry (through phis of locals)
+			for _, v := range leavesOf(rt.Results[0]) {
+				e := newExprCtx(w).expr(v)
+				rs = append(rs, e)
+				set[e] = true
+			}
 		}
-		ok := len(rs) == 2 && containsStr(rs, "(p0 %:int64 p1)") && containsStr(rs, "((p0 %:int64 p1) +:int64 p1)")
+		ok := len(set) == 2 && set["(p0 %:int64 p1)"] && (set["((p0 %:int64 p1) +:int64 p1)"] || set["(p1 +:int64 (p0 %:int64 p1))"])
 		r.Check(ok, "C06.R6", "floorMod", w.pos(fm.Pos()), "x%y, corrected by +y", "floorMod does not return x%y or x%y+y: "+strings.Join(rs, " / "))
 	}
 	if bi := need(w, r, "C06.R6", w.Lib, "Whisper.baseInterval"); bi != nil {
@@ -421,7 +427,7 @@ func rulesC06(w *World, r *Report) {
 	ruleC05R5SizeOnly(w, r)
 	// reading reference-written files as the reference does needs the exact-interval stale-lap filter; every file a command leaves behind must have its header on disk
 	ruleStaleFilter(w, r, "C01.R2")
-	ruleC05R7(w, r, "C05.R7")
+	ruleC05R7(w, r, "C05.R7", 4, nil)
 }
 
 // ruleC05R5SizeOnly re-uses the creation-time length check for C06.
